@@ -377,6 +377,98 @@ fn finish_session(s: &mut Session, script: &mut Vec<String>, ctx: &mut Ctx) {
     }
 }
 
+impl C03 {
+    /// A break while an INPUT reply is being assigned (or at the prompt / key wait), then a direct
+    /// statement that leaves something on the value stack or clears it, then CONT.
+    fn mid_input_case(&self, rng: &mut Rng, ctx: &mut Ctx) {
+        let lines = [
+            "10 INPUT \"N\";A,B$,C%",
+            "15 K$=INKEY$",
+            "20 PRINT A;B$;C%",
+            "30 RETURN",
+            "40 STOP",
+            "50 INPUT D:GOTO 20",
+        ];
+        let mut s = Session::new();
+        let mut script: Vec<String> = vec![];
+        for _ in 0..4 {
+            guard!(script, format!("execute {}", QBIG), s.step_q(QBIG));
+        }
+        for l in &lines {
+            guard!(script, format!("enter {:?}", l), s.enter(l));
+            for _ in 0..4 {
+                if guard!(script, format!("execute {}", QBIG), s.step_q(QBIG)) == Some(Stop::Stopped) {
+                    break;
+                }
+            }
+        }
+        let start = *rng.pick(&["RUN", "RUN 15", "RUN 50"]);
+        guard!(script, format!("enter {:?}", start), s.enter(start));
+        let mut at_prompt = false;
+        for _ in 0..20 {
+            match guard!(script, "execute 1".to_string(), s.step_q(1)) {
+                Some(Stop::Input(..)) | Some(Stop::Inkey) => {
+                    at_prompt = true;
+                    break;
+                }
+                Some(Stop::Stopped) => break,
+                _ => {}
+            }
+        }
+        if at_prompt && rng.chance(3, 4) {
+            let r = *rng.pick(&["1,x,3", "1,2,3", "7", "", "1,\"a,b\",3"]);
+            guard!(script, format!("enter {:?}", r), s.enter(r));
+            // stop somewhere inside the assignment of the fields
+            for _ in 0..rng.range(0, 7) {
+                guard!(script, "execute 1".to_string(), s.step_q(1));
+            }
+        }
+        guard!(script, "interrupt".to_string(), s.interrupt());
+        let mut stopped = false;
+        for _ in 0..8 {
+            if guard!(script, format!("execute {}", QBIG), s.step_q(QBIG)) == Some(Stop::Stopped) {
+                stopped = true;
+                break;
+            }
+        }
+        if stopped {
+            let d = *rng.pick(&[
+                "FOR I=1 TO 3", "GOSUB 40", "ON 1 GOSUB 40", "A$=\"X\"", "CLEAR", "DIM Q(2)", "PRINT A;B$", "NEXT", "RETURN", "GOSUB 30",
+                "WHILE 0:WEND", "DEF FNA(X)=X", "PRINT 1/0", "INPUT Z", "Z$=INKEY$", "GOTO 20", "RESTORE", "READ Q",
+            ]);
+            guard!(script, format!("enter {:?}", d), s.enter(d));
+            let mut ok = false;
+            for _ in 0..8 {
+                match guard!(script, format!("execute {}", QBIG), s.step_q(QBIG)) {
+                    Some(Stop::Stopped) => {
+                        ok = true;
+                        break;
+                    }
+                    Some(Stop::Input(..)) | Some(Stop::Inkey) => {
+                        guard!(script, "enter \"5\"".to_string(), s.enter("5"));
+                    }
+                    _ => {}
+                }
+            }
+            if ok {
+                guard!(script, "enter \"CONT\"".to_string(), s.enter("CONT"));
+                for _ in 0..12 {
+                    match guard!(script, format!("execute {}", QBIG), s.step_q(QBIG)) {
+                        Some(Stop::Stopped) => break,
+                        Some(Stop::Input(..)) | Some(Stop::Inkey) => {
+                            guard!(script, "enter \"1,2,3\"".to_string(), s.enter("1,2,3"));
+                        }
+                        _ => {}
+                    }
+                }
+            }
+            ctx.cover("direct_statements_between_break_and_cont", d);
+        }
+        ctx.count("mid_input_break_sessions");
+        finish_session(&mut s, &mut script, ctx);
+    }
+}
+
 /// Statements over a string temporary T of up to ~80,000 characters (a sum of 255-character strings).
 const BIG_TEMP_STATEMENTS: [&str; 18] = [
     "PRINT LEN(T)",
@@ -554,6 +646,9 @@ impl C03 {
         }
         if rng.chance(1, 4) {
             return self.big_temp_case(rng, ctx);
+        }
+        if rng.chance(1, 4) {
+            return self.mid_input_case(rng, ctx);
         }
         let n = 16_370 + rng.range(0, 14);
         let gosubs = rng.range(0, 3);
